@@ -162,6 +162,7 @@ func opSig(v *psVector, kind string) string {
 
 // checkVector replays one vector; returns nil or a disagreement.
 var crashOnly bool
+var compareCount bool
 
 func checkVector(base *psBase, v *psVector, line int) *disagreement {
 	mk := func(kind, what, exp, obs string) *disagreement {
@@ -230,7 +231,9 @@ func checkVector(base *psBase, v *psVector, line int) *disagreement {
 		if err := b.Compare(&v.Final); err != nil {
 			return mk("state", "final state differs from the reference", "", err.Error())
 		}
-		if v.NOps != nil && *v.NOps != out.NumOps {
+		// the number of operations is compared only where the property speaks about it (C11, -count):
+		// what counts as one operation is the interpreter's business
+		if compareCount && v.NOps != nil && *v.NOps != out.NumOps {
 			return mk("numops", "operation count differs from the reference", fmt.Sprintf("NumOps=%d", *v.NOps), fmt.Sprintf("NumOps=%d", out.NumOps))
 		}
 	case "error":
@@ -263,6 +266,7 @@ func replayPS(args []string) error {
 	basePath := fs.String("base", "psbase.json", "base heap written by the specification")
 	maxReport := fs.Int("max-report", 400, "maximum number of disagreements reported in detail")
 	fs.BoolVar(&crashOnly, "crash-only", false, "only panics count (C01)")
+	fs.BoolVar(&compareCount, "count", false, "also compare Interpreter.NumOps with the reference (C11)")
 	isolate := fs.Bool("isolate", false, "replay in child processes: fatal runtime errors and hangs are observed (C01)")
 	if err := fs.Parse(args); err != nil {
 		return err
@@ -271,6 +275,9 @@ func replayPS(args []string) error {
 		sub := []string{"replay-ps", "-base", *basePath}
 		if crashOnly {
 			sub = append(sub, "-crash-only")
+		}
+		if compareCount {
+			sub = append(sub, "-count")
 		}
 		return runIsolated(sub, fs.Arg(0), 30000, 300*time.Second, "psop", func(raw []byte) string {
 			var v psVector
